@@ -233,7 +233,7 @@ EvmInStep(post) ==
 \* res.outs the messages it committed to the hub (already consumed as ordinary steps), res.subs what it submitted
 \* to the multisig, res.ack the nonce the hub acknowledged.  `call` is the state at the moment of the call.
 QConfAddrs(s, tx) == {p[1] : p \in RangeOf(ConfsOf(s, MC, tx))}
-ConnAct(a) == a.k \in {"ConnScan", "ConnBatches", "ConnValsets", "ConnRestart", "ConnCrashScan"}
+ConnAct(a) == a.k \in {"ConnScan", "ConnBatches", "ConnValsets", "ConnRestart", "ConnCrashScan", "ConnReinit"}
 ClaimEvs(outs) == [i \in DOMAIN outs |-> outs[i].ev]
 SubChecks(mx, sub, seqno, body, want, signersWant, who) ==
          Fail(~(sub.decoded /\ sub.sender_ok /\ sub.nonce = seqno /\ body), "C08:MinterTxMatches", who)
@@ -262,7 +262,8 @@ MinterChecks(call, pre, a, res) ==
               ELSE   Fail(res.outs # <<>> /\ ClaimEvs(res.outs) # ScanClaims(mx0, cur0), "C20:SameNonce", v)
                      \* what the status file says at the moment of the kill is consistent (and is what memory holds after the reload)
                 \cup Fail(~CursorConsistent(mx0, dsk1) \/ dsk1 # cur1, "C20:CursorConsistent", v)
-         [] a.k = "ConnRestart" ->
+         \* (ConnReinit: no status file, the configured start cursor plays the part of the persisted one)
+         [] a.k \in {"ConnRestart", "ConnReinit"} ->
               IF ~CursorConsistent(mx0, dsk0) THEN {}
               ELSE   Fail(~CursorConsistent(mx0, dsk1) \/ dsk1 # cur1, "C20:CursorConsistent", v)
                 \cup Fail(cur1 # CursorAt(mx0, ResyncTo(mx0, dsk0, res.ack)), "conf:resync", v)
